@@ -78,24 +78,61 @@ CONTEXT_PREFIX = {
     'EM_RISCV': {'sh_type': ['SHT_RISCV_'], 'p_type': ['PT_RISCV_'], 'd_tag': ['DT_RISCV_']},
     'EM_X86_64': {'sh_type': ['SHT_X86_64_']},
     'ELFOSABI_SOLARIS': {'d_tag': ['DT_SUNW_']},
+    'ET_CORE': {'n_type': ['NT_']},
 }
+ALL_CONTEXT_PREFIXES = sorted({p for d in CONTEXT_PREFIX.values() for ps in d.values() for p in ps if p != 'NT_'})
+FIELD_PREFIX = {'sh_type': 'SHT_', 'p_type': 'PT_', 'd_tag': 'DT_', 'n_type': 'NT_', 'e_type': 'ET_', 'e_machine': 'EM_', 'ch_type': 'ELFCOMPRESS_'}
+_MARKERS = ('LOOS', 'HIOS', 'LOPROC', 'HIPROC', 'LOUSER', 'HIUSER', 'LOSUNW', 'HISUNW', 'NUM')
+_VOCAB = {}
 
 
-def _context_names(machine, osabi, field):
-    """code -> set of names the registries define for it in this processor / OS context (empty dict: no context-specific names)"""
+def _vocabulary(ctx, field, machine, osabi, e_type):
+    """codes that the library's own enumeration tables name (with a registry-confirmed value) for this field and that belong to
+    this context: such a code must be reported by name, not left raw"""
+    pre = FIELD_PREFIX.get(field)
+    if pre is None:
+        return []
+    key = (field, machine, osabi, e_type)
+    if key not in _VOCAB:
+        EN = ctx.lib('elf.enums')
+        mine = [p for k in (machine, osabi) for ps in [CONTEXT_PREFIX.get(k, {}).get(field, [])] for p in ps]
+        vals = set()
+        for n in dir(EN):
+            d = getattr(EN, n)
+            if not (n.startswith('ENUM') and isinstance(d, dict)):
+                continue
+            for name, v in d.items():
+                if not (isinstance(name, str) and name.startswith(pre) and isinstance(v, int)) or name.rsplit('_', 1)[-1] in _MARKERS:
+                    continue
+                if v not in _accepted(name):
+                    continue
+                own = [p for p in ALL_CONTEXT_PREFIXES if name.startswith(p)]
+                if own and not any(p in mine for p in own):
+                    continue
+                if field == 'n_type' and (name.startswith('NT_GNU_') == (e_type == 'ET_CORE')):
+                    continue
+                vals.add(v)
+        _VOCAB[key] = sorted(vals)
+    return _VOCAB[key]
+
+
+def _context_names(machine, osabi, field, e_type=None):
+    """code -> set of names the registries define for it in this processor / OS / file-type context (empty dict: no context-specific names)"""
     out = {}
-    for key in (machine, osabi):
+    for key in (machine, osabi, e_type):
         for pre in CONTEXT_PREFIX.get(key, {}).get(field, []):
             names = [n for n in REG.registry() if n.startswith(pre)] + [n for n in REG.supplement() if n.startswith(pre)]
             for n in names:
                 if n.endswith('_NUM'):      # table-size markers (DT_AARCH64_NUM, DT_MIPS_NUM), not codes
+                    continue
+                if key == 'ET_CORE' and n.startswith('NT_GNU_'):     # the GNU note types are those of linked objects, not of core files
                     continue
                 for v in _accepted(n):
                     out.setdefault(v, set()).add(n)
     return out
 
 
-def _check_decode(ctx, where, decode, bits, signed=False, prefer=None):
+def _check_decode(ctx, where, decode, bits, signed=False, prefer=None, named=None):
     """run the library's own decode step on a symbolic code v: a reported name must be the registry's name for v"""
     v = ctx.sint('v', bits) if signed else ctx.uint('v', bits)
     try:
@@ -120,6 +157,8 @@ def _check_decode(ctx, where, decode, bits, signed=False, prefer=None):
         else:
             # raw pass-through: must be the code itself
             ctx.check('%s/raw' % where, ctx.implies(cond, ctx.eq(obj, v)))
+            if named:
+                ctx.check('%s/named-code-not-left-raw' % where, ctx.implies(cond, ctx.land(*[v != c for c in named])))
     return nchecked
 
 
@@ -131,6 +170,11 @@ def h_decode_elf(ctx):
     st = S.ELFStructs(little_endian=cfg['little'], elfclass=cfg['elfclass'])
     st.create_basic_structs()
     st.create_advanced_structs(cfg.get('e_type'), cfg['machine'], cfg.get('osabi'))
+    if cfg.get('copied'):
+        # a copy made through the pickle protocol (copy.deepcopy, multiprocessing) rebuilds the structs from
+        # (byte order, class, file type, machine, OS ABI): it must name codes like the original
+        import copy
+        st = copy.deepcopy(st)
     ads = _adapters_of(st)
     idx = cfg['adapter']
     if idx >= len(ads):
@@ -141,7 +185,8 @@ def h_decode_elf(ctx):
     where = '%s.%s' % (owner, ad.subcon.name)
     signed = type(ad.subcon).__name__ == 'FormatField' and ad.subcon.packer.format[-1] in 'bhilq'
     n = _check_decode(ctx, where, lambda v: ad._decode(v, C.Container()), _field_bits(ad), signed,
-                      prefer=_context_names(cfg['machine'], cfg.get('osabi'), ad.subcon.name))
+                      prefer=_context_names(cfg['machine'], cfg.get('osabi'), ad.subcon.name, cfg.get('e_type')),
+                      named=_vocabulary(ctx, ad.subcon.name, cfg['machine'], cfg.get('osabi'), cfg.get('e_type')))
     ctx.outcome('ok')
 
 
@@ -250,6 +295,8 @@ def _elf_instances(tier):
                 for et in (None, 'ET_CORE'):
                     for a in range(0, 40):
                         out.append(dict(little=little, elfclass=cls, machine=m, osabi=osabi, e_type=et, adapter=a))
+                        if (m in ('EM_MIPS', 'EM_AARCH64') and et == 'ET_CORE') or osabi:
+                            out.append(dict(little=little, elfclass=cls, machine=m, osabi=osabi, e_type=et, adapter=a, copied=True))
     return out
 
 
